@@ -97,6 +97,7 @@
 (assert (not (HasYield nilIface)))
 ; astutil cursor (abstract) and the source-level target of a branch statement (ghost, C01 side condition S2)
 (declare-fun cursorNode (Ref) Iface)
+(declare-fun cursorParent (Ref) Iface)
 (declare-fun SrcBreakTargetsLoop (Ref) Bool)
 (declare-fun LoopBodyHasContinue (Ref) Bool)
 ; the post statement of the loop mentions a name that the loop body declares at its top level (ghost, C01 side condition S3)
